@@ -298,6 +298,8 @@ type httpScenario struct {
 	BodyKind string `json:"body_kind,omitempty"`
 	// CloseErr: the inner transport's response bodies close properly but report an error from Close
 	CloseErr bool `json:"close_err,omitempty"`
+	// NilBody: the inner transport hands out responses without a Body (it has consumed and closed it itself)
+	NilBody bool `json:"nil_body,omitempty"`
 	// Barrier: the server answers only once this many requests are in flight (or 2 ms have passed), so that hedged
 	// attempts obtain their responses at the same moment
 	Barrier int `json:"barrier,omitempty"`
@@ -320,7 +322,10 @@ func (f *flakySeeker) Seek(off int64, whence int) (int64, error) {
 }
 
 // closeErrTransport hands out responses whose Body.Close releases the connection and then reports an error.
-type closeErrTransport struct{ inner http.RoundTripper }
+type closeErrTransport struct {
+	inner   http.RoundTripper
+	nilBody bool
+}
 
 type closeErrBody struct{ io.ReadCloser }
 
@@ -332,6 +337,12 @@ func (b closeErrBody) Close() error {
 func (t closeErrTransport) RoundTrip(r *http.Request) (*http.Response, error) {
 	resp, err := t.inner.RoundTrip(r)
 	if resp != nil && resp.Body != nil {
+		if t.nilBody {
+			io.Copy(io.Discard, resp.Body)
+			resp.Body.Close()
+			resp.Body, resp.ContentLength = nil, 0
+			return resp, err
+		}
 		resp.Body = closeErrBody{resp.Body}
 	}
 	return resp, err
@@ -370,8 +381,8 @@ func runHTTP(sc httpScenario) (cleanup func()) {
 	tr := &http.Transport{MaxIdleConnsPerHost: 4}
 	currentTransport = tr
 	var rt http.RoundTripper = tr
-	if sc.CloseErr {
-		rt = closeErrTransport{tr}
+	if sc.CloseErr || sc.NilBody {
+		rt = closeErrTransport{inner: tr, nilBody: sc.NilBody}
 	}
 	for rep := 0; rep < sc.Reps; rep++ {
 		mu.Lock()
@@ -461,7 +472,7 @@ func runHTTP(sc httpScenario) (cleanup func()) {
 					lr.Body.Close() // the caller owns the response carried by the error
 				}
 			}
-		} else {
+		} else if resp.Body != nil {
 			if sc.ReadBody {
 				io.Copy(io.Discard, resp.Body)
 			}
@@ -506,6 +517,7 @@ func genHTTP(t *rapid.T) httpScenario {
 		}
 	}
 	sc.CloseErr = rapid.IntRange(0, 3).Draw(t, "closeErr") == 0
+	sc.NilBody = !sc.CloseErr && rapid.IntRange(0, 3).Draw(t, "nilBody") == 0
 	if sc.BodySize > 0 && rapid.IntRange(0, 3).Draw(t, "seekFails") == 0 {
 		sc.BodyKind = "seek-fails"
 	}
